@@ -84,6 +84,11 @@ def make_tag(kind):
     if kind == "t3t":
         return simtags.T3Tag(simtags.t3_image(0x10, 4, 1, 4, 3,
                                               b"\xd0\x00\x00"))
+    if kind == "t1t":
+        # Type 1 Tag: answers with SENS_RES and RID_RES only (no SEL_RES)
+        mem, _ = ref_tlv.build({"kind": "t1t", "size": 14, "extra": 0,
+                                "ctrl": [], "nulls": 0}, b"\xd0\x00\x00")
+        return simtags.T1Tag(mem)
     if kind in ("t4a", "t4a+dep"):
         from vlib import isodep_card
         app = isodep_card.T4App(0x20, 255, 255, 64, 64, b"\xd0\x00\x00")
@@ -279,7 +284,7 @@ def case_strategy():
         "card": st.one_of(st.none(), st.none(), kind_opts("card")),
         "env": st.fixed_dictionaries({
             "tag": st.sampled_from([None, "t2t", "t2t", "t3t", "t3t", "t4a",
-                                    "t4a+dep", "t4a+dep"]),
+                                    "t4a+dep", "t4a+dep", "t1t", "t1t"]),
             "tag_life": st.sampled_from([3, 12, 30, 1000, 1000]),
             "peer": st.sampled_from([None, None, "initiator", "target"]),
             "peer_time": st.sampled_from([0.3, 1.0, 3.0]),
@@ -295,7 +300,26 @@ def case_strategy():
 def enum_tagtypes(tier, seed):
     """every supported tag type in a stable field x rdwr callbacks: a tag the
     application accepts must reach on-connect"""
-    for tag in ("t2t", "t3t", "t4a", "t4a+dep"):
+    # every tag type while connect() also tries peer to peer as initiator or
+    # target (rdwr declining or absent): the tag is not a peer, connect()
+    # keeps polling until terminate
+    for tag in ("t1t", "t2t", "t3t", "t4a", "t4a+dep"):
+        for role in (None, "initiator", "target"):
+            for rdwr in (None, False):
+                yield {
+                    "rdwr": None if rdwr is None else {
+                        "startup": "default", "discover": False,
+                        "connect": True, "release": True, "targets": None,
+                        "iterations": None, "interval": None, "beep": None},
+                    "llcp": {"startup": "default", "discover": "default",
+                             "connect": True, "release": True, "role": role,
+                             "lto": 100},
+                    "card": None,
+                    "env": {"tag": tag, "tag_life": 1000, "peer": None,
+                            "peer_time": 0.3, "reader_visits": 0,
+                            "reader_cmds": 0, "fault": None},
+                    "terminate_at": 8, "seed": 0}
+    for tag in ("t1t", "t2t", "t3t", "t4a", "t4a+dep"):
         for discover in (True, "default", False):
             for connect in (True, False, 1):
                 for targets in (None, ["106A", "212F"], ["212F", "106A"]):
@@ -1003,8 +1027,11 @@ def run_sense(case, ctx):
 
 LEGS = [
     Leg("tagtypes", run=run_connect, enum=enum_tagtypes, exhaustive=True,
-        rule="Type 2, Type 3, Type 4A (SEL_RES 20h) and Type 4A + NFC-DEP "
-             "(SEL_RES 60h) tags in a stable field x on-discover true / "
+        rule="Type 1, Type 2, Type 3, Type 4A (SEL_RES 20h) and Type 4A + "
+             "NFC-DEP (SEL_RES 60h) tags in a stable field: (a) with the llcp "
+             "option (role unset / initiator / target) and rdwr absent or "
+             "declining - a tag is not a peer, connect() polls until "
+             "terminate; (b) rdwr with on-discover true / "
              "default / false x on-connect true / false x 3 target lists x "
              "2 terminate points: the callback contract, and a tag the "
              "application accepted must be activated and reach on-connect; "
